@@ -435,6 +435,54 @@ fn list_element_case(name: &str, longest: usize) -> Result<(), (String, String)>
     }
 }
 
+/// A line for the derived group of the session checks, typed and submitted: whatever stands where a typed argument is
+/// expected, the conversion may refuse it but may not panic or overflow
+fn typed_argument_case(line: &str) -> Result<(), (String, String)> {
+    use vmodel::session::{Config, GroupSet, Sess};
+    let what = format!("line {:?} submitted to the derived command group", line);
+    let l = line.to_string();
+    let r = vmodel::engine::guarded(move || {
+        let cfg = Config { cmd_buf: l.len() + 4, hist_buf: 0, set: "group".into(), ..Config::default() };
+        let (s, _) = Sess::<GroupSet>::new(&cfg, None);
+        let mut s = s.map_err(|e| format!("{:?}", e))?;
+        for &b in l.as_bytes() {
+            s.byte(b).map_err(|e| format!("{:?}", e))?;
+        }
+        s.byte(b'\r').map_err(|e| format!("{:?}", e))?;
+        Ok::<(), String>(())
+    });
+    match r {
+        Err(p) => Err((format!("{}: no panic", what), p)),
+        Ok(Err(e)) => Err((format!("{}: Ok on a working sink", what), e)),
+        Ok(Ok(())) => Ok(()),
+    }
+}
+
+/// Spellings around the limits of every integer width, signs, leading zeros, long digit runs, floats, blanks and letters
+fn number_spellings() -> Vec<String> {
+    let mut v: Vec<String> = Vec::new();
+    for bits in [7u32, 8, 15, 16, 31, 32, 63, 64, 127, 128] {
+        let m = 1u128.checked_shl(bits).map(|x| x.wrapping_sub(1)).unwrap_or(u128::MAX);
+        let m = if bits == 128 { u128::MAX } else { m };
+        for d in 0..=10u128 {
+            v.push(m.saturating_sub(3).saturating_add(d).to_string());
+            v.push(format!("-{}", m.saturating_sub(3).saturating_add(d)));
+        }
+        v.push(format!("{}0", m));
+        v.push(format!("{}9", m));
+        v.push(format!("+{}", m));
+        v.push(format!("000{}", m.saturating_add(1)));
+    }
+    for t in ["0", "-0", "+0", "00", "1", "-1", "9", "10", "99", "100", "", "-", "+", "--5", "+-5", "5-", "1e3", "1.5", ".5", "5.", "0x10", "1_000", "٣", "１２", "½", "é", "4294967296000000000000000000000000000000000000", "-99999999999999999999999999999999999999999999", "340282366920938463463374607431768211456", "340282366920938463463374607431768211459"] {
+        v.push(t.to_string());
+    }
+    v.sort();
+    v.dedup();
+    v
+}
+
+const TYPED_SLOTS: [&str; 9] = ["get-led {}", "get-led -v {}", "get-adc {}", "get-adc -n {}", "get-adc --samples {} 3", "net iface mtu {}", "go-to -x {}", "go-to -y {} -x {}", "exec {}"];
+
 const LIST_NAMES: [&str; 9] = ["", "a", "é", "имя", "температура", "₿𝄞", "x𝄞", "get-led", "值"];
 
 fn run_shard(ctx: &ShardCtx) {
@@ -450,6 +498,30 @@ fn run_shard(ctx: &ShardCtx) {
             }
         }
         ctx.class_n("write_list_element grid (name x longest_name)", n);
+    }
+    // every typed slot of the session command group x number spellings around every integer limit
+    {
+        let mut n = 0u64;
+        let mut idx = 0u64;
+        'typed: for slot in TYPED_SLOTS {
+            for val in number_spellings() {
+                idx += 1;
+                if !ctx.mine(idx) || ctx.failed() {
+                    continue;
+                }
+                n += 1;
+                let quoted = if val.is_empty() { "\"\"".to_string() } else { val.clone() };
+                // a value that starts with a dash goes behind `--` where the slot is a positional, and as it is otherwise
+                let line = slot.replace("{}", &quoted);
+                for l in [line.clone(), format!("{} --", line)] {
+                    if let Err((e, o)) = typed_argument_case(&l) {
+                        ctx.fail(Failure::new("typed-argument", json!({"line": l}), e, o));
+                        break 'typed;
+                    }
+                }
+            }
+        }
+        ctx.class_n("typed-argument grid (slot x number spelling)", n);
     }
     ctx.run_prop("raw-session", ctx.tier.pick(1_000_000, 10_000_000), case_strategy(), |d| input_json(d), |data| match fuzzrun::run(data) {
         Ok(r) => {
@@ -510,6 +582,9 @@ fn run_shard(ctx: &ShardCtx) {
 fn replay(sub: &str, case: &Value) -> Verdict {
     if sub == "list-element" {
         return list_element_case(case["name"].as_str().unwrap_or(""), case["longest"].as_u64().unwrap_or(0) as usize).map_err(|(e, o)| Failure::new(sub, case.clone(), e, o));
+    }
+    if sub == "typed-argument" {
+        return typed_argument_case(case["line"].as_str().unwrap_or("")).map_err(|(e, o)| Failure::new(sub, case.clone(), e, o));
     }
     if sub == hookfree::SUB {
         return hookfree::replay(case);
